@@ -202,7 +202,7 @@ def gen_pairs(ctx):
         c = {"api": api, "src": src, "tgt": tgt, "cls": cls}
         c.update(kw)
         c["history"] = (len(cases) % 2 == 0)      # every other request is repeated through the caches at the end
-        if api == "gas" and src["proj"] != tgt["proj"]:
+        if api == "gas" and str(src["proj"]) != str(tgt["proj"]):
             # the different-CRS branch is also asked for slices of a length divisible by N (shape_divisible_by)
             c["divisible"] = sorted(r.sample([2, 3, 4, 5, 7, 8, 16], 3))
         cases.append(c)
@@ -338,6 +338,34 @@ def gen_pairs(ctx):
         chunks = [r.choice([1, 2, 3, 5, 8, 13, 40]), r.choice([1, 2, 3, 5, 8, 13, 40])]
         add("swath", src, tgt, ("thin_" if thin else "") + "swath_" + rel, chunks=chunks)
 
+    # CRS spelling: the same geometries with the CRS given as an authority code (string or int), including codes whose
+    # authority axis order is (lat, lon) / (northing, easting): EPSG:4326, EPSG:3035; xy-ordered codes for contrast
+    def coded_area(code, kind, lon_c, lat_c, span, shape):
+        if kind == "longlat":
+            half = span / 111000.0 / 2.0
+            ext = [lon_c - half / max(0.3, math.cos(math.radians(lat_c))), lat_c - half,
+                   lon_c + half / max(0.3, math.cos(math.radians(lat_c))), lat_c + half]
+        else:
+            cx, cy = _proj_centre(code if isinstance(code, str) else "EPSG:%d" % code, lon_c, lat_c)
+            ext = [cx - span / 2, cy - span / 2, cx + span / 2, cy + span / 2]
+        return {"proj": code, "shape": list(shape), "extent": [float(v) for v in ext], "kind": kind}
+    CODES = [("EPSG:4326", "longlat"), (4326, "longlat"), ("EPSG:3035", "laea"), (3035, "laea"), ("EPSG:32632", "tmerc"),
+             ("EPSG:3857", "merc")]
+    for i in range(ctx.n(14, 140)):
+        lon, lat = 10.0 + r.uniform(-4, 4), 50.0 + r.uniform(-4, 4)
+        api = ["swath", "swath", "slicer", "gas"][i % 4]
+        tcode, tkind = CODES[i % len(CODES)] if i % 4 < 2 else r.choice(CODES)
+        sspan = r.choice([6e5, 1.2e6])
+        if r.random() < 0.5:
+            scode, skind = r.choice(CODES)
+            src = coded_area(scode, skind, lon, lat, sspan, (r.randint(12, 36), r.randint(12, 36)))
+        else:
+            src = mk_area(r, r.choice(["laea", "stere_n", "merc"]), lon, lat, sspan, (r.randint(12, 36), r.randint(12, 36)))
+        tgt = coded_area(tcode, tkind, lon + r.uniform(-1.5, 1.5), lat + r.uniform(-1, 1), sspan * r.uniform(0.15, 0.6),
+                         (r.randint(2, 20), r.randint(2, 20)))
+        kw = {"chunks": [r.choice([3, 5, 8, 13]), r.choice([3, 5, 8, 13])]} if api == "swath" else {}
+        add(api, src, tgt, "crs_code", **kw)
+
     # swaths chunked along BOTH dimensions with a target oblique to the chunk grid: polar stereographic source and target
     # whose central meridians differ by 30..60 degrees, so the target is a diamond / an oblique strip on the swath and
     # the chunks it hits form a diamond or a staircase (first / last hit chunk do not bound the others)
@@ -430,6 +458,8 @@ def failure_key(clause, api, case, cols):
         return "C11.H_poly.gas.different_crs"
     if wraps_source_crs(case, cols):
         return "C11.H_poly.%s.target_wraps_source_crs_antimeridian" % api
+    if case.get("cls") == "crs_code":
+        return "C11.crs_spelling.%s.%s" % (api, clause)
     if api == "swath" and clause == "cover" and case.get("cls") == "swath_oblique":
         return "C11.cover.swath.oblique_chunks"
     g = geos_outline_lossy(case)
@@ -623,6 +653,67 @@ def geos_outline_lossy(case):
     return None
 
 
+# ------------------------------------------------------------------ histories of near-identical targets on one source
+def gen_near_histories(ctx):
+    """One fine source (10-20 m pixels) and a sequence of targets of equal shape whose extents differ by a few source
+    pixels but by less than what a loose equality / a rounded hash would resolve (degree CRS: < 5e-4 deg on extents that
+    sit 5e-5 above a multiple of 1e-3; metre CRS: tens of metres on extents of millions of metres).  Every cached entry
+    point sees the whole sequence in order; every call is judged against the cover clause for ITS OWN target."""
+    r = ctx.rng
+    out = []
+    for i in range(ctx.n(6, 40)):
+        lat_c = r.choice([35, 48, 56, 60, 64]) * (1 if r.random() < 0.8 else -1)
+        lon_c = r.choice([9, 15, 21, -75, 135])
+        px = r.choice([10.0, 20.0])
+        n = 1200
+        src = {"proj": "+proj=laea +lat_0=%d +lon_0=%d +ellps=WGS84" % (lat_c, lon_c), "shape": [n, n],
+               "extent": [-px * n / 2, -px * n / 2, px * n / 2, px * n / 2], "kind": "laea"}
+        if i % 3 != 2:
+            # lon/lat target: pixels of 1e-4 deg (lat) x 2e-4 deg (lon), extents 5e-5 above a multiple of 1e-3
+            h, w = r.choice([10, 20, 30]), r.choice([5, 10, 15])
+            y0 = lat_c + r.randint(-8, 5) * 1e-3 + 5e-5
+            x0 = lon_c + r.randint(-8, 5) * 1e-3 + 5e-5
+            a = [x0, y0, x0 + w * 2e-4, y0 + h * 1e-4]
+            proj, kind = "+proj=longlat +datum=WGS84 +no_defs", "longlat"
+            shifts = [(0, 0), (0, 4e-4), (0, -3.5e-4) if r.random() < 0.5 else (0, 2e-4), (4e-4, 0), (0, 0)]
+        else:
+            # metre target far from its origin: 30 m shifts on extents of ~3e6 m
+            proj, kind = "+proj=laea +lat_0=%d +lon_0=%d +ellps=WGS84" % (lat_c - 25 if lat_c > 0 else lat_c + 25, lon_c - 20), "laea"
+            cx, cy = _proj_centre(proj, lon_c, lat_c)
+            h, w = r.choice([10, 20]), r.choice([10, 20])
+            a = [cx - w * 10.0, cy - h * 10.0, cx + w * 10.0, cy + h * 10.0]
+            shifts = [(0, 0), (0, 30.0), (-25.0, 0), (0, 0)]
+        tgts = [{"proj": proj, "shape": [h, w], "extent": [a[0] + dx, a[1] + dy, a[2] + dx, a[3] + dy], "kind": kind} for dx, dy in shifts]
+        out.append({"api": "near_history", "src": src, "tgts": tgts})
+    return out
+
+
+def judge_near_history(c, o):
+    """verdicts for one history: a cached call that fails the cover clause for its own target while the uncached computation
+    of the same request passes it is attributed to the history; anything else keeps its ordinary key"""
+    v = []
+    stale = 0
+    n_on = 0
+    for i, (t, st) in enumerate(zip(c["tgts"], o.get("steps", []))):
+        for fn, api, cached, fresh in (("crop_source_area", "slicer", st["crop_cached"], st["crop_fresh"]),
+                                       ("get_area_slices_json_cache", "gas", st["gas_cached"], st["gas_fresh"])):
+            sub = {"api": api, "src": c["src"], "tgt": t, "cls": "near_history", "_same_crs": False}
+            jc = judge_cover(sub, st, cached, api)
+            n_on = max(n_on, sub.get("_n_on", 0))
+            sub2 = dict(sub)
+            jf = judge_cover(sub2, st, fresh, api)
+            stale += cached.get("sl") != fresh.get("sl") or cached.get("err") != fresh.get("err")
+            if jc and not jf:
+                v.append(("C11.history.near_identical_targets.%s" % fn,
+                          "call %d of the history (target extent %s after %s): %s; the uncached computation returns %s"
+                          % (i + 1, t["extent"], [u["extent"] for u in c["tgts"][:i]], jc[1], fresh)))
+            elif jc:
+                v.append(jc)
+    c["_stale"] = stale
+    c["_n_on"] = n_on
+    return v
+
+
 # ------------------------------------------------------------------ scalar stream for the kernels
 def gen_scalar(ctx):
     r = ctx.rng
@@ -809,8 +900,24 @@ def run(ctx):
                 "all (start, stop) in [-3,5]^2; everything else is sampled")
     cases = gen_pairs(ctx)
     scal = gen_scalar(ctx)
-    obs = run_impl(ctx, cases + scal)
-    obs_pairs, obs_scal = obs[:len(cases)], obs[len(cases):]
+    hist = gen_near_histories(ctx)
+    obs = run_impl(ctx, cases + scal + hist)
+    obs_pairs, obs_scal, obs_hist = obs[:len(cases)], obs[len(cases):len(cases) + len(scal)], obs[len(cases) + len(scal):]
+    for c, o in zip(hist, obs_hist):
+        if "setup_err" in o or "steps" not in o:
+            ctx.count("setup_error")
+            continue
+        verdicts = judge_near_history(c, o)
+        ctx.count("near_history:%s_targets" % c["tgts"][0]["kind"])
+        ctx.count("near_history:cached_calls", 2 * len(c["tgts"]))
+        ctx.count("near_history:cached_result_differs_from_fresh", c["_stale"])
+        ctx.case(("nh", repr(c["src"]), repr(c["tgts"])), nontrivial=c["_n_on"] > 0,
+                 sample={"history/near_identical_targets": {"src": c["src"], "targets": [t["extent"] for t in c["tgts"]],
+                                                            "target_crs": c["tgts"][0]["proj"], "target_shape": c["tgts"][0]["shape"]},
+                         "impl": [{"crop_source_area": st["crop_cached"].get("sl", st["crop_cached"].get("err")),
+                                   "get_area_slices(json cache)": st["gas_cached"].get("sl", st["gas_cached"].get("err"))} for st in o["steps"]]})
+        for key, what in verdicts:
+            ctx.add_failure(key, what, {"case": public_case(c), "impl": [st["crop_cached"] for st in o["steps"]]})
 
     # ---- property oracle on the implementation
     L_crop, L_arr, L_create, L_starts, L_gas, L_swath, L_ens, L_ori = [], [], [], [], [], [], [], []
@@ -837,7 +944,7 @@ def run(ctx):
         if "_bil_ok" in c:
             ctx.count("bilinear_neighbours_inside" if c["_bil_ok"] else "bilinear_neighbours_not_all_inside")
         ctx.count("crs:%s<-%s" % (c["src"]["kind"], c["tgt"]["kind"]))
-        group = ("oblique_chunks" if c["cls"] == "swath_oblique" else "corpus" if c["cls"].endswith("corpus") else
+        group = ("oblique_chunks" if c["cls"] == "swath_oblique" else "crs_code" if c["cls"] == "crs_code" else "corpus" if c["cls"].endswith("corpus") else
                  "one_pixel_thick_target" if thin_target(c) else "geos_source" if c["src"]["kind"] == "geos" else
                  "same_crs" if "same_crs" in c["cls"] else "different_crs")
         kind = "%s/%s" % (api, group)
@@ -960,5 +1067,7 @@ def replay(ctx, data):
     o = ctx.impl("c11", {"cases": [public_case(case)]})["results"][0]
     if case["api"] == "scalar":
         return bool(judge_scalar(case, o["res"]))
+    if case["api"] == "near_history":
+        return bool(judge_near_history(dict(case), o))
     c = dict(case)
     return bool(judge(c, o))
